@@ -41,7 +41,11 @@ CLAIMS = {
              "error text and every write/flush failure, qmail_close() reports success iff the queue program was reaped, did "
              "not crash, exited 0 and nothing failed on the writer's side; the envelope terminator is never written after "
              "a failure; permanent (D) exactly for the documented permanent exit codes, temporary (Z) otherwise. "
-             "Further proofs (listed in evidence) cover the daemons' reply mapping, the size limit and the Received field.",
+             "qmail-smtpd smtp_data: 250 iff queued, 554/552/451 classes; put(): failed exactly at byte databytes+1 and every "
+             "stored byte passes the counter (blast invariant); received.c: only safe characters from peer strings (bounded, "
+             "per byte). qmail-qmqpd main/getbuf and qmail-qmtpd main (11 loop contracts, any byte stream, at most 8 "
+             "recipients before the model allocator gives up): K iff qmail_close reported the message queued, an "
+             "unacceptable address or an over-size body fails the submission before it is closed, buffers never overrun.",
         note="qmail-queue's own behaviour is C01; substdio, close and wait_pid are environment stubs.",
         design_ref="DESIGN.md section 5 C07"),
     "C15": dict(
@@ -232,7 +236,7 @@ CLAIMS = {
              "(loop contracts, any length: never read past the buffer / the first non-digit), qmail-qmtpd getlen (no "
              "overflow, any number of digits).",
         note="The property as written (no input corrupts ANY program) is decided only for the listed functions. NOT covered: "
-             "dns.c, token822.c, headerbody.c, hfield.c, qmail-inject.c, qmail-qmtpd/qmqpd main, qmail-local main, "
+             "dns.c, token822.c, headerbody.c, hfield.c, qmail-inject.c, qmail-local main, "
              "qmail-popup, maildir.c, ipme.c, tcpto.c, control.c, getln/getln2 and substdio's own bodies (their contracts "
              "are assumed by the proofs that call them; a substdio proof was attempted and removed, see DESIGN). "
              "--conversion-check is off (qmail's digit test relies on unsigned wrap-around, which is defined behaviour).",
